@@ -101,7 +101,10 @@ def main():
         elif rnd.random() < 0.12:
             fmask = [True] * size                                   # a layer without a single value
             dist["all_missing_files"] = dist.get("all_missing_files", 0) + 1
-        with netCDF4.Dataset(fname, "w") as ds:
+        # the file (which is also the template of the write below) in any of the NetCDF formats; GDAL writes NETCDF4_CLASSIC by default
+        fmt = "NETCDF4" if stored == "f8be" else rnd.choice(["NETCDF4", "NETCDF4", "NETCDF4_CLASSIC", "NETCDF3_CLASSIC", "NETCDF3_64BIT_OFFSET"])
+        dist.setdefault("file_formats", {})[fmt] = dist.setdefault("file_formats", {}).get(fmt, 0) + 1
+        with netCDF4.Dataset(fname, "w", format=fmt) as ds:
             for dname, ln in zip(dims, shape):
                 ds.createDimension(dname, ln)
                 cv = ds.createVariable(dname, "f8", (dname,))
